@@ -195,10 +195,10 @@ Section Run.
 
   (* ---------- every script of operations, every oracle ---------- *)
   Theorem run_script_main st0 supp ops orc st orc' :
-    is_input st0 -> okf st0 = true ->
+    is_input st0 ->
     run_script o u supp ops st0 orc = Some (st, orc') -> okf st = true -> sdr st.
   Proof.
-    intros Hin _ E Hok. destruct (run_script_pres _ _ _ _ _ _ E) as (_ & P & _). apply P; [|exact Hok].
+    intros Hin E Hok. destruct (run_script_pres _ _ _ _ _ _ E) as (_ & P & _). apply P; [|exact Hok].
     exists g0. now apply init_inv.
   Qed.
 
